@@ -67,6 +67,10 @@ CHECKS = {
   text="Property-based testing of simulation rules: (a) stateful Add/Del/Suspend/Reactivate/save-load histories over rules generated from the documented grammar: print/parse round-trip by String and by Print, JSON survival, agreement with an independent parser of the grammar; (b) small machines with generated rule lists run through a faithful copy of the -sim loop, through SinglePipelineSimulate and through the real bondmachine -sim binary, judged against a trace predictor written from the docs and the tick convention (set values/valid at tick T, get/show samples, onvalid/onexit events, suspended or deleted rule = absent, independent rules commute). Six documentation-versus-code defects are recorded as known findings and excluded by class.",
   note="Trusted: the trace predictor and its tick convention (taken from the CLI loop where the docs are silent), numeric decoding of reported values. Native fuzz of Simbox.Add in the thorough tier.",
   technique="property-based testing (rapid): round-trip + stateful model for rule lists, reference trace predictor and metamorphic relations for simulations, differential against the real CLI"),
+ "C16": dict(
+  text="Property-based testing of the front-ends' outputs with an independent well-formedness validator written from the statement: BASM sources with operands and lengths at power-of-two boundaries (all CLI switch sets, romsize/ramsize overrides, data sections, shared objects), fragment graphs, neural nets through neuralbond, circuits through bmqsim, Go-subset programs through the bondgo CLI, and deliberately unfittable sources which must be rejected. Every emitted machine must have full-width binary ROM words that decode to its opcodes, adequate register file/ports/ROM/RAM for everything program and source mention, a sorted duplicate-free opcode list, equal register sizes, ConstraintCheck and a well-formed bond graph. Found five defects (all fixed in /repo).",
+  note="Trusted: the validator harness/c16/wf.go (uses only ConstraintCheck, Max_word and the opcodes' own Disassembler from the repository), the generators' knowledge of what the source mentions. Adequacy only, never minimality.",
+  technique="property-based testing (rapid) with a validity-predicate oracle over front-end outputs; rejection oracle for unfittable inputs"),
  "C17": dict(
   text="Property-based testing over generated machines and batch plans (sequential and concurrent callers of SinglePipelineSimulate / Fitness_default): goroutine accounting after a settle loop must not grow with the number of finished simulations. Exploration; found D9 (fixed in /repo).",
   note="Trusted: runtime.NumGoroutine and the settle loop; retained heap is reported only through the goroutine count (a leaked worker pins its VM).",
@@ -78,7 +82,6 @@ CHECKS = {
 }
 
 PENDING = {
- "C16": "check under construction (planned: independent well-formedness validator over front-end outputs)",
 }
 
 HOOK_COMMITS = ["ab27f8d", "598a995"]
